@@ -143,6 +143,16 @@ func genPod(r *kit.Rand, name string, bound bool) jPod {
 		if r.Chance(1, 10) {
 			p.NoDisrupt = true
 		}
+		// preferences on running pods: a candidate's pods are re-scheduled (and relaxed) by every simulation
+		if r.Chance(1, 3) {
+			p.PrefZone = kit.Pick(r, append([]string{"no-such-zone"}, zones...))
+		}
+		if r.Chance(1, 5) {
+			p.Spread = "ScheduleAnyway"
+		}
+		if r.Chance(1, 6) {
+			p.PrefAnti = true
+		}
 		return p
 	}
 	if r.Chance(1, 3) {
